@@ -212,6 +212,15 @@ func markName(m sergen.Mark) string {
 func forward(st *stats, u *sergen.Universe, si int, s *sergen.Shape, v *sergen.Val, vi int, validation bool) (accepted []byte) {
 	x := sergen.Build(s, v, rand.New(rand.NewSource(u.Seed+int64(vi)))).Interface()
 	b, err, pan := safeEncode(u.API, s, x, validation)
+	if u.Static {
+		// the custom Serializables of the static universe return windows into a shared arena
+		if off, ok := sergen.ArenaIntact(); !ok {
+			what := fmt.Sprintf("after Encode the shared arena behind the custom Serializable values is changed at offset %d (slot %d): the encoder wrote into the slice a Serializable returned; shape %s", off, off/4, short(s.String(), 200))
+			st.violation("alias/encoder-wrote-into-serializable-backing-array", what, replayRec{Dir: "forward", Static: true, USeed: u.Seed, ShapeIdx: si, ValIdx: vi, Validation: validation,
+				Shape: short(s.String(), 600), GoType: short(sergen.Describe(s), 600), Detail: what})
+			sergen.ArenaReset()
+		}
+	}
 	if pan != nil {
 		st.count("encoder_panics_not_claimed", 1)
 		return nil
@@ -222,6 +231,18 @@ func forward(st *stats, u *sergen.Universe, si int, s *sergen.Shape, v *sergen.V
 	}
 	ref, marks := sergen.RefEncode(s, v)
 	st.count("reference_comparisons", 1)
+	if u.Static {
+		if t, k := sergen.ArenaCount(s, v); t > 0 {
+			st.count("arena_backed_custom_values_encoded", t)
+			st.count("arena_backed_custom_map_keys_encoded", k)
+			// encoding the very same Go value again must give the same bytes
+			if b2, err2, pan2 := safeEncode(u.API, s, x, validation); err2 != nil || pan2 != nil || !bytes.Equal(b, b2) {
+				what := fmt.Sprintf("encoding the same value (holding custom Serializables backed by shared storage) a second time gave other bytes / failed (%v %v); shape %s", err2, pan2, short(s.String(), 200))
+				st.violation("alias/second-encode-differs", what, replayRec{Dir: "forward", Static: true, USeed: u.Seed, ShapeIdx: si, ValIdx: vi, Validation: validation, Shape: short(s.String(), 600), Detail: what})
+				sergen.ArenaReset()
+			}
+		}
+	}
 	if s.Top != nil {
 		st.count("toplevel_with_type_settings_comparisons", 1)
 	}
@@ -703,6 +724,8 @@ func run(c *vf.Ctx) {
 	for _, r := range []string{"map", "lexical", "nodup", "bounds", "plain"} {
 		c.Require("accepted_mutants/rule="+r, c.Pick(500, 10000))
 	}
+	c.Require("arena_backed_custom_values_encoded", c.Pick(2000, 20000))
+	c.Require("arena_backed_custom_map_keys_encoded", c.Pick(500, 5000))
 	c.Require("shapes_with_map_lexical_ordering_explicitly_false", c.Pick(60, 1200))
 	c.Require("toplevel_with_type_settings_comparisons", c.Pick(4000, 80000))
 	c.Require("accepted_mutants/rule=mustoccur", c.Pick(30, 600))
